@@ -1343,65 +1343,25 @@ impl<E: Effect> Executor<E> {
         let finished = process.map(|p| p.frames.is_empty()).unwrap_or(false);
 
         if finished {
-            // Store result
-            let result_value = if let Some(process) = self.get_process_mut(current_pid) {
-                // If error is already set (during execution), use nil as placeholder
-                if let Some(Err(_)) = process.result {
-                    Value::nil()
-                } else {
-                    // No error yet - pop result from stack
-                    let Some(result) = process.stack.pop() else {
-                        // Stack underflow - process finished with no result on stack
-                        process.result = Some(Err(Error::StackUnderflow));
-                        return (true, None); // Did work but hit error
-                    };
-                    process.result = Some(Ok(result.clone()));
-                    result
-                }
-            } else {
-                Value::nil()
-            };
-
-            // Notify any processes awaiting this one
-            let awaiters: Vec<ProcessId> = self
-                .processes
-                .iter()
-                .filter_map(|(pid, proc)| {
-                    if proc.awaiting.contains_key(&current_pid) {
-                        Some(*pid)
-                    } else {
-                        None
-                    }
-                })
-                .collect();
-
-            // Get the process result to check if it's an error
-            let process_result = self.get_process(current_pid).and_then(|p| p.result.clone());
-
-            for awaiter in awaiters {
-                match &process_result {
-                    Some(Ok(_)) => {
-                        // Success - notify with the result value
-                        self.store_awaited_result(
-                            awaiter,
-                            current_pid,
-                            result_value.clone(),
-                            vec![],
-                            false,
-                        )
-                        .ok(); // Ignore errors since this is internal notification
-                    }
-                    Some(Err(error)) => {
-                        // Error - left for the awaiter's select to find (see `notify_failure`)
-                        self.store_awaited_failure(awaiter, current_pid, error.clone(), false);
-                    }
-                    None => {
-                        // No result yet (shouldn't happen at this point)
-                        self.notify_result(awaiter, current_pid, result_value.clone(), vec![])
-                            .ok();
-                    }
-                }
+            // Store result (unless an error was already set during execution)
+            if let Some(process) = self.get_process_mut(current_pid)
+                && !matches!(process.result, Some(Err(_)))
+            {
+                // No error yet - pop result from stack
+                let Some(result) = process.stack.pop() else {
+                    // Stack underflow - process finished with no result on stack
+                    process.result = Some(Err(Error::StackUnderflow));
+                    return (true, None); // Did work but hit error
+                };
+                process.result = Some(Ok(result));
             }
+
+            // Awaiters - on this worker or any other - learn of the completion through the await
+            // protocol alone (`Worker::check_completed_processes`). Handing the result straight to
+            // an awaiter that happens to live on this executor let it overtake what the process
+            // had sent before it finished (a message, another process's completion report), which
+            // still travels through the environment: the outcome of a select over the message and
+            // the process then depended on where the two were placed.
 
             // What the process still held, other than its result, is garbage now.
             self.discard_terminated_state(current_pid);
